@@ -141,9 +141,10 @@ func checkC06(c *Ctx, r *Result, tier string) {
 	sort.Slice(funcs, func(i, j int) bool { return c.FuncKey(funcs[i]) < c.FuncKey(funcs[j]) })
 	r.Extra["entry_points"] = len(entries)
 	r.Extra["reachable_functions"] = len(funcs)
-	r.Floor("C06-reach", len(funcs), 400)
+	r.Floor("C06-reach", len(funcs), 300)
 
 	perKind := map[string][2]int{}
+	nObl := 0
 	usedReviewed := map[string]bool{}
 	dump := os.Getenv("ECALCHECK_DUMP") != ""
 	for _, fn := range funcs {
@@ -152,6 +153,7 @@ func checkC06(c *Ctx, r *Result, tier string) {
 		sortObligations(obs)
 		for _, ob := range obs {
 			r.Obligations++
+			nObl++
 			pk := perKind[ob.Kind]
 			pk[0]++
 			rule := "R06-" + ob.Kind
@@ -190,5 +192,5 @@ func checkC06(c *Ctx, r *Result, tier string) {
 	sort.Strings(stale)
 	r.Extra["reviewed_entries"] = len(c06Reviewed)
 	r.Extra["reviewed_entries_unused"] = stale
-	r.Floor("C06-obligations", r.Obligations, 300)
+	r.Floor("C06-obligations", nObl, 300)
 }
